@@ -32,12 +32,21 @@ fn very_long_enabled() -> bool {
     *V.get_or_init(|| std::env::var("PP_VERY_LONG").map(|v| v == "1").unwrap_or(false))
 }
 
-fn size(r: &mut Rng, lo: usize, span: u64) -> usize {
-    if very_long_enabled() && r.chance(1, 300) {
-        // VERY long (thorough tier only: PP_VERY_LONG=1): thresholds in the hundreds or thousands (u8 / u16 counters, block sizes, recursion cut-offs)
-        300 + r.below(3000) as usize
-    } else if r.chance(1, 12) {
-        33 + r.below(128) as usize
+pub fn size(r: &mut Rng, lo: usize, span: u64) -> usize {
+    size_capped(r, lo, span, usize::MAX)
+}
+
+/// `size` with a per-campaign cap (campaigns whose model or exact-rational monitor is quadratic in the length)
+pub fn size_capped(r: &mut Rng, lo: usize, span: u64, cap: usize) -> usize {
+    if r.chance(1, 12) {
+        // LONG: log-uniform from just above the ordinary range (so that unroll / SmallVec / cut-off thresholds such as
+        // 16, 32, 64, 256, 1024 all fall inside) up to 512 elements - up to 4096 when PP_VERY_LONG=1 (thorough tier, and
+        // whenever a check runs at the enlarged budget because the tie to the source is weaker than usual)
+        let top: f64 = (if very_long_enabled() { 4096.0f64 } else { 512.0 }).min(cap as f64);
+        let base = (lo as f64 + span as f64).max(2.0);
+        let e = r.unit();
+        let n = (base * (top / base).powf(e)) as usize;
+        n.max(lo)
     } else {
         lo + r.below(span) as usize
     }
@@ -51,6 +60,29 @@ fn ncls(n: usize, cap: usize) -> String {
     } else {
         n.min(cap).to_string()
     }
+}
+
+/// exact power-of-two rescaling of knot data: (x, y) -> (x*2^a, y*2^b).  `inside`: exponents that keep ordinary data
+/// within the monitors' windows (spline 2^+-150, linear 2^+-300); otherwise far outside them (correspondence only).
+fn rescale_knots(r: &mut Rng, ks: &mut Vec<(f64, f64)>, lim: i64) -> &'static str {
+    let (a, b, name) = match r.below(8) {
+        0 | 1 => (r.range(-lim, lim) as i32, r.range(-lim, lim) as i32, "scaled"),
+        2 => (0, r.range(-lim, lim) as i32, "y-scaled"),
+        3 => (r.range(-lim, lim) as i32, 0, "x-scaled"),
+        4 => {
+            let e = r.range(lim * 2, 900) as i32;
+            (if r.chance(1, 2) { e } else { -e }, if r.chance(1, 2) { e / 2 } else { -e / 2 }, "extreme")
+        }
+        _ => return "",
+    };
+    for k in ks.iter_mut() {
+        k.0 *= (2.0f64).powi(a);
+        k.1 *= (2.0f64).powi(b);
+        if k.0 == 0.0 {
+            k.0 = 0.0;
+        }
+    }
+    name
 }
 
 fn is_logish(tag: &str) -> bool {
@@ -120,7 +152,8 @@ fn pos_arg(r: &mut Rng) -> (f64, &'static str) {
         3 => ((r.range(1, 40) as f64) / 8.0, "eighths"),
         4 => (r.unit() * 100.0 + 0.01, "0.01..100"),
         5 => ((2.0f64).powi(r.range(-30, 30) as i32), "pow2"),
-        6 => ((-1.71f64).exp() * (1.0 + (r.unit() - 0.5) * 1e-3), "near-switch-hi"),
+        // the series is used for -1.71 < x < 1.72 with x = -ln v: the switches are at v = e^1.71 and v = e^-1.72
+        6 => (if r.chance(1, 2) { (1.71f64).exp() } else { (-1.72f64).exp() } * (1.0 + (r.unit() - 0.5) * 1e-3), "near-switch"),
         _ => (r.unit() * 3.0 + 0.05, "0.05..3"),
     }
 }
@@ -166,9 +199,29 @@ pub fn gen_case(campaign: &str, r: &mut Rng) -> Case {
         }
         "eval" => {
             let tag = *r.pick(&["p0", "p1", "p2", "p3", "p4", "p5", "p6", "p7", "p8", "pn", "pn"]);
-            let style = r.below(5);
-            let (p, sname) = nums_for(r, tag, style);
-            let (x, cx) = if style == 0 { (gen_cls(r, Cls::SmallInt), Cls::SmallInt) } else { moderate(r) };
+            let mut style = r.below(9);
+            if style == 4 {
+                style = 8; // "sparse" is the default arm of nums_for
+            }
+            let (mut p, mut sname) = nums_for(r, tag, if style == 8 { 4 } else { style });
+            let (mut x, mut cx) = if style == 0 { (gen_cls(r, Cls::SmallInt), Cls::SmallInt) } else { moderate(r) };
+            if r.chance(1, 8) && !p.is_empty() {
+                // extreme argument with BALANCED terms: x = +-2^k far outside the moderate range, c_i = m_i * 2^(-k*i)
+                // (exact scaling), so that every partial term c_i x^i is an ordinary number while bare powers of x are not
+                let n = p.len() as i64;
+                let kmax = (1000 / n.max(1)).clamp(1, 500);
+                let mut k = r.range(40.min(kmax), kmax) as i32;
+                if r.chance(1, 2) {
+                    k = -k;
+                }
+                x = (2.0f64).powi(k) * if r.chance(1, 2) { -1.0 } else { 1.0 };
+                cx = Cls::Huge;
+                p = (0..p.len()).map(|i| moderate(r).0 * (2.0f64).powi(-k * i as i32)).collect();
+                sname = "balanced-extreme".to_string();
+            } else if r.chance(1, 10) {
+                cx = *r.pick(&[Cls::Tiny, Cls::Huge, Cls::Subnormal]);
+                x = gen_cls(r, cx);
+            }
             let mut c = Case::new("eval", tag).set("p", Val::L(p.clone())).set("x", Val::F(x)).cls(&format!("{tag}:{sname}:{cx:?}{}", if p.len() > 32 { ":long" } else { "" }));
             c.nontrivial = p.len() >= 2 && x != 0.0 && p.iter().filter(|v| **v != 0.0).count() >= 2;
             c
@@ -258,8 +311,8 @@ pub fn gen_case(campaign: &str, r: &mut Rng) -> Case {
             c
         }
         "merge" | "merge-reject" => {
-            let nf = size(r, 1, 6);
-            let ng = if nf > 32 && r.chance(1, 2) { 1 + r.below(6) as usize } else { size(r, 1, 6) };
+            let nf = size_capped(r, 1, 6, 400);
+            let ng = if nf > 32 && r.chance(1, 2) { 1 + r.below(6) as usize } else { size_capped(r, 1, 6, 400) };
             let style = r.below(5);
             // index-revealing pieces: k of f's i-th piece = i+1, of g's j-th piece = 1000(j+1)
             let mk = |ends: &[f64], scale: f64, r: &mut Rng, reveal: bool| -> Pw {
@@ -312,8 +365,13 @@ pub fn gen_case(campaign: &str, r: &mut Rng) -> Case {
                         cls.push_str(":empty-g");
                     }
                     _ => {
-                        let i = r.below(fe.len() as u64) as usize;
-                        fe[i] = f64::NAN;
+                        if r.chance(1, 2) {
+                            let i = r.below(fe.len() as u64) as usize;
+                            fe[i] = f64::NAN;
+                        } else {
+                            let i = r.below(ge.len() as u64) as usize;
+                            ge[i] = f64::NAN;
+                        }
                         cls.push_str(":nan-end");
                     }
                 }
@@ -340,13 +398,23 @@ pub fn gen_case(campaign: &str, r: &mut Rng) -> Case {
             let p = if op == "deriv" && r.chance(1, 10) { nums_for(r, tag, 7).0 } else { piece(r, tag) };
             let mut c = Case::new(op, tag).set("p", Val::L(p.clone())).cls(&format!("{op}:{tag}"));
             if op == "integral" {
-                let kx = if is_logish(tag) { pos_arg(r).0 } else if r.chance(1, 6) { *r.pick(&[0.0, -0.0, 1.0]) } else { moderate(r).0 };
+                let kx = if is_logish(tag) {
+                    if r.chance(1, 8) { (2.0f64).powi(r.range(-900, 900) as i32) * (1.0 + r.unit()) } else { pos_arg(r).0 }
+                } else if r.chance(1, 6) {
+                    *r.pick(&[0.0, -0.0, 1.0])
+                } else if r.chance(1, 8) {
+                    let c = *r.pick(&[Cls::Tiny, Cls::Huge, Cls::Subnormal, Cls::Pow2]);
+                    gen_cls(r, c) * if c == Cls::Pow2 { (2.0f64).powi(r.range(-200, 200) as i32) } else { 1.0 }
+                } else {
+                    moderate(r).0
+                };
                 let scale = p.iter().fold(0.0f64, |m, v| m.max(v.abs()));
                 let ky = if r.chance(1, 3) && scale > 0.0 { moderate(r).0 * scale } else { moderate(r).0 };
                 c = c.set("k", Val::L(vec![kx, ky]));
             }
             if op == "translate" {
-                c = c.set("v", Val::F(moderate(r).0));
+                let v = if r.chance(1, 8) { let c = *r.pick(&[Cls::Tiny, Cls::Huge, Cls::Subnormal]); gen_cls(r, c) } else { moderate(r).0 };
+                c = c.set("v", Val::F(v));
             }
             c.nontrivial = p.iter().any(|v| *v != 0.0);
             c
@@ -432,6 +500,28 @@ pub fn gen_case(campaign: &str, r: &mut Rng) -> Case {
             c.nontrivial = p.iter().any(|v| *v != 0.0);
             c
         }
+        "pwops-probe" => {
+            // every operator impl that EXISTS on the containers Segment<T> / Piecewise<T> for every piece type (auto-ref probe)
+            let (mut op, mut tag, mut level) = ("mul", "p0", "pw");
+            for _ in 0..400 {
+                op = *r.pick(crate::probe::PROBE_PW_OPS);
+                tag = *r.pick(ALL_TAGS);
+                level = *r.pick(&["seg", "pw"]);
+                if crate::run::pw_op_exists(tag, level, op) {
+                    break;
+                }
+            }
+            let n = if level == "seg" { 1 } else { size(r, 0, 8) };
+            let pw = pw_pieces(r, tag, n, is_logish(tag), false);
+            let mut c = Case::new("pwopsraw", tag).set("op", Val::S(op.into())).set("level", Val::S(level.into())).set("pw", Val::Pw(pw));
+            if op != "neg" {
+                let s = if r.chance(1, 6) { *r.pick(&[0.0, -1.0, -0.0]) } else { moderate(r).0 };
+                c = c.set("s", Val::F(s));
+            }
+            let mut c = c.cls(&format!("{level}:{op}:{tag}:n={}", ncls(n, 3)));
+            c.nontrivial = n >= 1;
+            c
+        }
         "pwops" => {
             let op = *r.pick(&[
                 "pwmul", "segmul", "pwmulassign", "segmulassign", "pwneg", "pwtranslate", "segtranslate", "pwderiv", "segderiv",
@@ -462,7 +552,7 @@ pub fn gen_case(campaign: &str, r: &mut Rng) -> Case {
             let op = *r.pick(&["pwintegral", "pwintegral", "pwindef", "integraliter", "segintegral", "segindef"]);
             let tag = *r.pick(INTEG_TAGS);
             let seg_only = op.starts_with("seg");
-            let n = if seg_only { 1 } else { size(r, 0, 9) };
+            let n = if seg_only { 1 } else { size_capped(r, 0, 9, 200) };
             let pw = pw_pieces(r, tag, n, is_logish(tag), false);
             let mut c = Case::new(op, tag).set("pw", Val::Pw(pw.clone()));
             if op != "pwindef" && op != "segindef" {
@@ -498,7 +588,8 @@ pub fn gen_case(campaign: &str, r: &mut Rng) -> Case {
                 }
                 ks.push((x, moderate(r).0));
             }
-            let mut c = Case::new("linear", "p1").set("knots", Val::Knots(ks)).cls(&format!("style={style}:n={}", ncls(n, 4)));
+            let sc = rescale_knots(r, &mut ks, 200);
+            let mut c = Case::new("linear", "p1").set("knots", Val::Knots(ks)).cls(&format!("style={style}:n={}:{sc}", ncls(n, 4)));
             c.nontrivial = n >= 3;
             c
         }
@@ -538,7 +629,8 @@ pub fn gen_case(campaign: &str, r: &mut Rng) -> Case {
                 }
                 ks.push((x, yy));
             }
-            let mut c = Case::new("spline", "p3").set("knots", Val::Knots(ks)).cls(&format!("style={style}:n={}", ncls(n, 5)));
+            let sc = rescale_knots(r, &mut ks, 80);
+            let mut c = Case::new("spline", "p3").set("knots", Val::Knots(ks)).cls(&format!("style={style}:n={}:{sc}", ncls(n, 5)));
             c.nontrivial = n >= 4;
             c
         }
